@@ -186,15 +186,23 @@ func (x *searcher) checkDry(s, n *State, o buildOpts, res *buildResult) {
 	// ... also on one and the same Project value (dry run, Reload, Run with nil options), as
 	// watch mode and library users drive it
 	if x.prop == "C13" {
-		var same *buildResult
-		x.withRoot(func(root string) {
-			writeTree(root, s.files())
-			same = dryThenRealSameProject(root, s.V, o.Target)
-		})
-		x.nBuilds.Add(1)
-		if same.LoadErr == nil {
-			if setString(same.Executed) != setString(real.Executed) || es(same.RunErr) != es(real.RunErr) {
-				bad("changes-next-build-same-project", fmt.Sprintf("on one Project value, the build after a dry run executed {%s}; a real build of the same tree executes {%s}", setString(same.Executed), setString(real.Executed)))
+		for _, reload := range []bool{true, false} {
+			// watch mode reloads between the two; the REPL (run(t, dry_run=True); run(t)) does not
+			var same *buildResult
+			x.withRoot(func(root string) {
+				writeTree(root, s.files())
+				same = dryThenRealSameProject(root, s.V, o.Target, reload)
+			})
+			x.nBuilds.Add(1)
+			if same.LoadErr == nil {
+				if setString(same.Executed) != setString(real.Executed) || es(same.RunErr) != es(real.RunErr) {
+					bad("changes-next-build-same-project", fmt.Sprintf("on one Project value (reloaded in between: %v), the build after a dry run executed {%s}; a real build of the same tree executes {%s}", reload, setString(same.Executed), setString(real.Executed)))
+				} else if reload == false {
+					// ... and leaves the same records behind (what the next process sees)
+					if d := diffTrees(canonArt(artOf(real.After)), canonArt(artOf(same.After))); d != "" {
+						bad("changes-next-build-state-same-project", "dry run then real build on one Project leaves other build state than the real build alone: "+d)
+					}
+				}
 			}
 		}
 	}
